@@ -12,6 +12,8 @@ use zlink_core::{Call, Connection, ReplyError};
 pub enum MC {
     #[serde(rename = "c.Do")]
     Do { tag: u32 },
+    #[serde(rename = "c.Big")]
+    Big { tag: u32, pad: String },
 }
 
 #[derive(Debug, Serialize, Deserialize, PartialEq, Clone)]
@@ -108,6 +110,11 @@ pub struct Case {
     pub pendings: usize,
     /// what happened on the connection before the chain (see `vnet::warm_up_kind`; 0 = nothing)
     pub history: u8,
+    /// bytes of padding in every call (0 = the small call); big chains exceed any plausible write-size threshold
+    pub pad: usize,
+    /// the frames of the later exchange are the replies of a second chain (sent after the first stream is done)
+    /// instead of being received one by one
+    pub second_chain: bool,
 }
 
 impl Case {
@@ -116,7 +123,7 @@ impl Case {
             "kinds": self.kinds.iter().map(|k| match k { Kind::Plain => "plain", Kind::Oneway => "oneway", Kind::More => "more" }).collect::<Vec<_>>(),
             "replies": self.replies.iter().map(|r| json!([r.tag, r.is_error, r.continues, r.pad])).collect::<Vec<_>>(),
             "trailing": self.trailing.iter().map(|r| json!([r.tag, r.is_error, r.continues, r.pad])).collect::<Vec<_>>(),
-            "cuts": self.cuts, "trailing_later": self.trailing_later, "cancel_next": self.cancel_next, "pendings": self.pendings, "history": self.history})
+            "cuts": self.cuts, "trailing_later": self.trailing_later, "cancel_next": self.cancel_next, "pendings": self.pendings, "history": self.history, "pad": self.pad, "second_chain": self.second_chain})
     }
     pub fn from_replay(r: &Value) -> Case {
         let reps = |v: &Value| -> Vec<Rep> {
@@ -131,6 +138,8 @@ impl Case {
             cancel_next: r["cancel_next"].as_bool().unwrap_or(false),
             pendings: r["pendings"].as_u64().unwrap_or(0) as usize,
             history: r["history"].as_u64().unwrap_or(0) as u8,
+            pad: r["pad"].as_u64().unwrap_or(0) as usize,
+            second_chain: r["second_chain"].as_bool().unwrap_or(false),
         }
     }
     fn hash(&self) -> u64 {
@@ -141,12 +150,16 @@ impl Case {
         for c in &self.cuts {
             h = fnv_mix(h, *c as u64);
         }
-        fnv_mix(h, self.trailing_later as u64 * 4 + self.cancel_next as u64 * 2 + self.pendings as u64 * 8 + self.history as u64 * 64)
+        fnv_mix(h, self.trailing_later as u64 * 4 + self.cancel_next as u64 * 2 + self.pendings as u64 * 8 + self.history as u64 * 64 + self.second_chain as u64 * 1024 + ((self.pad as u64) << 12))
     }
 }
 
 pub fn call_for(kind: Kind, tag: u32) -> Call<MC> {
-    let c = Call::new(MC::Do { tag });
+    call_padded(kind, tag, 0)
+}
+
+pub fn call_padded(kind: Kind, tag: u32, pad: usize) -> Call<MC> {
+    let c = Call::new(if pad == 0 { MC::Do { tag } } else { MC::Big { tag, pad: "q".repeat(pad) } });
     match kind {
         Kind::Plain => c,
         Kind::Oneway => c.set_oneway(true),
@@ -188,10 +201,10 @@ pub fn execute(case: &Case) -> Outcome {
     let mut out = Outcome::default();
     {
         let mut chain = conn
-            .chain_call::<MC, Tagged, EC>(&call_for(case.kinds[0], 0))
+            .chain_call::<MC, Tagged, EC>(&call_padded(case.kinds[0], 0, case.pad))
             .expect("enqueue");
         for (i, k) in case.kinds.iter().enumerate().skip(1) {
-            chain = chain.append(&call_for(*k, i as u32)).expect("enqueue");
+            chain = chain.append(&call_padded(*k, i as u32, case.pad)).expect("enqueue");
         }
         let stream = vnet::block_on(chain.send(), 4).expect("virtual write never pends").expect("send");
         let mut stream = core::pin::pin!(stream);
@@ -240,6 +253,33 @@ pub fn execute(case: &Case) -> Outcome {
     if case.trailing_later {
         wire.borrow_mut().push(Rx::Bytes(trailing));
     }
+    if case.second_chain && !case.trailing.is_empty() {
+        // the later exchange is a chain of its own: one plain call per trailing frame
+        let mut chain = conn.chain_call::<MC, Tagged, EC>(&call_for(Kind::Plain, 500)).expect("enqueue");
+        for i in 1..case.trailing.len() {
+            chain = chain.append(&call_for(Kind::Plain, 500 + i as u32)).expect("enqueue");
+        }
+        match vnet::block_on(chain.send(), 4) {
+            Some(Ok(st)) => {
+                let mut st = core::pin::pin!(st);
+                loop {
+                    match vnet::block_on(st.next(), 8) {
+                        Some(Some(r)) => out.leftovers.push(canon_item(&r)),
+                        Some(None) => break,
+                        None => {
+                            out.leftover_stalled = true;
+                            break;
+                        }
+                    }
+                    if out.leftovers.len() > case.trailing.len() + 2 {
+                        break;
+                    }
+                }
+            }
+            _ => out.leftover_stalled = true,
+        }
+        return out;
+    }
     for _ in 0..case.trailing.len() {
         match vnet::block_on(conn.receive_reply::<Tagged, EC>(), 4) {
             Some(r) => out.leftovers.push(canon_item(&r)),
@@ -265,12 +305,14 @@ fn check(case: &Case, rep: &mut Report) {
     let desc = || format!("chain {:?}; owed {:?}; trailing {:?}; cuts {:?}; trailing_later={}", case.kinds, case.replies.iter().map(|r| r.canon()).collect::<Vec<_>>(), case.trailing.iter().map(|r| r.canon()).collect::<Vec<_>>(), case.cuts, case.trailing_later);
     // (1) one write, all calls in chain order
     let expect_write: Vec<u8> = case.kinds.iter().enumerate().flat_map(|(i, k)| {
-        let mut b = serde_json::to_vec(&call_for(*k, i as u32)).unwrap();
+        let mut b = serde_json::to_vec(&call_padded(*k, i as u32, case.pad)).unwrap();
         b.push(0);
         b
     }).collect();
-    if o.writes.len() != 1 || o.writes[0] != expect_write {
-        rep.violation("C06/calls-not-sent-as-one-write-in-chain-order", format!("{} writes: {}; {}", o.writes.len(), vnet::json::show(&o.writes.concat()), desc()), case.replay());
+    // (writes made by a second chain come later in the list)
+    if o.writes.is_empty() || o.writes[0] != expect_write || (!case.second_chain && o.writes.len() != 1) {
+        let all = o.writes.concat();
+        rep.violation("C06/calls-not-sent-as-one-write-in-chain-order", format!("{} writes of {:?} bytes: {}; {}", o.writes.len(), o.writes.iter().map(|w| w.len()).collect::<Vec<_>>(), vnet::json::show(&all[..all.len().min(400)]), desc()), case.replay());
         return;
     }
     // (2)+(3) items
@@ -403,7 +445,13 @@ pub fn run(cfg: &Cfg) -> Report {
                             continue;
                         }
                         // with trailing frames in the same burst only cut inside the owed part
-                        let case = Case { kinds: kinds.clone(), replies: replies.clone(), trailing: trailing.clone(), cuts: cuts.clone(), trailing_later, cancel_next: v % 3 == 2, pendings: if v % 3 == 2 { 1 } else { 0 }, history: if rng.chance(1, 2) { 0 } else { rng.range(1, 7) as u8 } };
+                        let case = Case { kinds: kinds.clone(), replies: replies.clone(), trailing: trailing.clone(), cuts: cuts.clone(), trailing_later, cancel_next: v % 3 == 2, pendings: if v % 3 == 2 { 1 } else { 0 }, history: if rng.chance(1, 2) { 0 } else { rng.range(1, 7) as u8 }, pad: 0, second_chain: false };
+                        let mut case = case;
+                        // the later exchange as a chain of its own (its frames must then be final replies)
+                        if !case.trailing.is_empty() && case.trailing.iter().all(|t| t.continues != Some(true)) && rng.chance(1, 2) {
+                            case.second_chain = true;
+                            rep.count("later_exchange_is_a_second_chain");
+                        }
                         if case.history > 0 {
                             rep.count("chains_on_a_connection_with_history");
                         }
@@ -458,9 +506,24 @@ pub fn run(cfg: &Cfg) -> Report {
             }
             _ => random_cuts(&mut rng, owed_len, 40),
         };
-        let case = Case { kinds, replies, trailing, cuts, trailing_later: rng.chance(1, 2), cancel_next: k % 5 == 4, pendings: if k % 5 == 4 { 1 } else { 0 }, history: if rng.chance(1, 2) { 0 } else { rng.range(1, 7) as u8 } };
+        let case = Case { kinds, replies, trailing, cuts, trailing_later: rng.chance(1, 2), cancel_next: k % 5 == 4, pendings: if k % 5 == 4 { 1 } else { 0 }, history: if rng.chance(1, 2) { 0 } else { rng.range(1, 7) as u8 }, pad: 0, second_chain: false };
         rep.count("long_reply_runs");
         rep.max("max_replies_owed_to_one_chain", case.replies.len() as u64);
+        check(&case, &mut rep);
+    }
+    // big chains: the calls of one chain add up to tens or hundreds of KiB and must still go out in one write
+    let nbig = if miri { 0 } else { cfg.n(24, 400) };
+    for k in 0..nbig {
+        let n = rng.range(1, 5);
+        let kinds: Vec<Kind> = (0..n).map(|_| *rng.pick(&[Kind::Plain, Kind::Oneway, Kind::More])).collect();
+        let pad = *rng.pick(&[9_000usize, 17_000, 33_000, 40_000, 66_000, 140_000]) + rng.below(300);
+        let mut r2 = rng.clone();
+        let replies = script_for(&kinds, &mut |m| r2.below(m));
+        rng = r2;
+        let owed_len: usize = replies.iter().map(|r| r.bytes().len()).sum();
+        let case = Case { kinds, replies, trailing: vec![], cuts: random_cuts(&mut rng, owed_len, 3), trailing_later: true, cancel_next: false, pendings: 0, history: if k % 2 == 0 { 0 } else { rng.range(1, 7) as u8 }, pad, second_chain: false };
+        rep.count("big_chains");
+        rep.max("max_bytes_of_one_chain", case.kinds.len() as u64 * pad as u64);
         check(&case, &mut rep);
     }
     rep.exhaustive = !miri;
